@@ -2,11 +2,11 @@ package gosym
 
 import (
 	"fmt"
-	"sync/atomic"
 	"os"
 	"runtime/debug"
 	"sort"
 	"strings"
+	"sync/atomic"
 
 	"golang.org/x/tools/go/ssa"
 )
@@ -84,24 +84,24 @@ type State struct {
 	fsEvents  []string
 	UserData  map[string]interface{}
 
-	lastRecovered *goPanic
-	stubs         map[string]int
-	faultHook     func(site string) bool
-	templateData  Value
-	inited        map[*ssa.Function]bool
-	pcSeen        map[string]bool
-	speculating   bool
-	queryCount    int
-	cross         []CrossQuery
-	trackFootprint bool
-	footprint     map[string]bool
-	faultsOn      bool
-	faultsHit     []string
-	rangeCount    int
+	lastRecovered    *goPanic
+	stubs            map[string]int
+	faultHook        func(site string) bool
+	templateData     Value
+	inited           map[*ssa.Function]bool
+	pcSeen           map[string]bool
+	speculating      bool
+	queryCount       int
+	cross            []CrossQuery
+	trackFootprint   bool
+	footprint        map[string]bool
+	faultsOn         bool
+	faultsHit        []string
+	rangeCount       int
 	mapOrderInstance int
-	mapSite       string
-	curSite       string
-	merges        int
+	mapSite          string
+	curSite          string
+	merges           int
 }
 
 func (st *State) note(s string) {
